@@ -45,6 +45,8 @@ pub enum ArrSpec {
     Sum(Vec<ArrSpec>),
     /// `arrival::sum_of(a, b)`
     SumOf(Box<ArrSpec>, Box<ArrSpec>),
+    /// the components queried through the *slice* implementation `impl ArrivalBound for [T]`
+    Slice(Vec<ArrSpec>),
     /// `Curve::from_arrival_bound(&inner, n)`
     CurveFromBound { inner: Box<ArrSpec>, njobs: usize },
     /// `Curve::from_arrival_bound_until(&inner, h)`
@@ -66,6 +68,20 @@ pub enum ArrSpec {
 }
 
 pub type DynArr = Rc<dyn ArrivalBound>;
+
+/// Owns the components and answers every query through `<[T] as ArrivalBound>`.
+pub struct SliceHolder(pub Vec<Box<dyn ArrivalBound>>);
+impl ArrivalBound for SliceHolder {
+    fn number_arrivals(&self, delta: Duration) -> usize {
+        <[Box<dyn ArrivalBound>] as ArrivalBound>::number_arrivals(&self.0[..], delta)
+    }
+    fn steps_iter<'a>(&'a self) -> Box<dyn Iterator<Item = Duration> + 'a> {
+        <[Box<dyn ArrivalBound>] as ArrivalBound>::steps_iter(&self.0[..])
+    }
+    fn clone_with_jitter(&self, jitter: Duration) -> Box<dyn ArrivalBound> {
+        <[Box<dyn ArrivalBound>] as ArrivalBound>::clone_with_jitter(&self.0[..], jitter)
+    }
+}
 pub type DynCost = Rc<dyn JobCostModel>;
 pub type DynRbf = RBF<DynArr, DynCost>;
 
@@ -134,6 +150,11 @@ impl ArrSpec {
                 Rc::new(parts)
             }
             ArrSpec::SumOf(a, b) => Rc::new(arrival::sum_of(a.build(), b.build())),
+            ArrSpec::Slice(v) => Rc::new(SliceHolder(
+                v.iter()
+                    .map(|x| Box::new(x.build()) as Box<dyn ArrivalBound>)
+                    .collect(),
+            )),
             ArrSpec::CurveFromBound { inner, njobs } => {
                 Rc::new(Curve::from_arrival_bound(&inner.build(), *njobs))
             }
